@@ -173,3 +173,141 @@ def combine_gen(rng, tier):
         else:
             other = sw(f"single{q}")
         yield {"self": recv, "other": other}
+
+
+# ---- Sweep.__len__ ------------------------------------------------------------------------------------------------------
+import z3  # noqa: E402
+
+from pyvc.engine import LoopSpec  # noqa: E402
+from pyvc.types import TDict, TInt, TOpt, TStr  # noqa: E402
+
+from .misc import TOut, at_least_tuple  # noqa: E402
+
+DItems = TDict(TStr, SO)
+SDims = TSeq(TOut)
+SweepLenV = TRec("Sweep", {"items": DItems, "dims": TOpt(SDims), "exclude": TOpt(TObj)})
+sweep_list = Contract(f"{F}::Sweep.list", params={"self": SweepLenV}, returns=SO, trusted=True, pure=True,
+                      note="the list of combinations (a generator over itertools.product and user closures): C17's "
+                           "bounded check")
+SS = TSeq(TStr)
+_PLEN = z3.Function("spec:product-of-lengths-along", DItems.sort(), SS.sort(), z3.IntSort(), z3.IntSort())
+_QLEN = z3.Function("spec:product-of-group-sizes", DItems.sort(), SDims.sort(), z3.IntSort(), z3.IntSort())
+
+
+def _first(S, g):
+    """The name whose sequence gives a zipped group its size: the group itself, or its first member."""
+    return S.ite(S.is_tag(g, "str"), lambda: S.untag(g, "str"), lambda: S.untag(g, "tuple")[0])
+
+
+def _len_axioms(S, a):
+    """Definitions of the two products (recursive in the number of factors)."""
+    items, k = a.self.items, z3.Int("k!ax")
+    o = z3.Const("o!ax", SS.sort())
+    vals = lambda key: DItems.val.len(z3.Select(DItems.vals(items.t), key))  # noqa: E731
+    ax = [z3.ForAll([o], _PLEN(items.t, o, 0) == 1, patterns=[_PLEN(items.t, o, 0)]),
+          z3.ForAll([o, k], z3.Implies(k > 0, _PLEN(items.t, o, k) == _PLEN(items.t, o, k - 1) * vals(
+              z3.Select(SS.arr(o), k - 1))), patterns=[_PLEN(items.t, o, k)])]
+    if True:
+        d = z3.Const("d!ax", SDims.sort())
+        g = lambda i: z3.Select(SDims.arr(d), i)  # noqa: E731
+        first = lambda i: z3.If(TOut.is_("str", g(i)), TOut.get("str", g(i)), z3.Select(SS.arr(TOut.get("tuple", g(i))), 0))  # noqa: E731
+        ax += [z3.ForAll([d], _QLEN(items.t, d, 0) == 1, patterns=[_QLEN(items.t, d, 0)]),
+               z3.ForAll([d, k], z3.Implies(k > 0, _QLEN(items.t, d, k) == _QLEN(items.t, d, k - 1) * vals(first(k - 1))),
+                         patterns=[_QLEN(items.t, d, k)])]
+    return ax
+
+
+def _cartesian(S, a):
+    """dims is None, or names exactly the items' keys one by one (then the zip structure is trivial)."""
+    if not S.symbolic:
+        return a.self.dims is None or set(a.self.dims) == a.self.items.keys()
+    dims = S.some(a.self.dims)
+    return S.or_(S.is_none(a.self.dims), lambda: S.forall_key(TOut, lambda x: S.contains(dims, x) == S.and_(
+        S.is_tag(x, "str"), lambda: S.has(a.self.items, S.untag(x, "str")))))
+
+
+def _group_bad_index(S, a, i):
+    g = S.some(a.self.dims)[i]
+    return S.and_(S.is_tag(g, "tuple"), lambda: S.len(S.untag(g, "tuple")) == 0)
+
+
+def _group_bad_key(S, a, i):
+    g = S.some(a.self.dims)[i]
+    return S.and_(S.not_(_group_bad_index(S, a, i)), lambda: S.not_(S.has(a.self.items, _first(S, g))))
+
+
+def _counts(S, a):
+    return S.and_(S.is_none(a.self.exclude), S.len(a.self.items) != 0)
+
+
+def _slen_ensures(S, a, r, post):
+    if not S.symbolic:
+        import math
+        sw = a.self
+        if sw.exclude is not None:
+            return {"with an exclude function: the number of combinations that list() yields": r == len(sw.list())}
+        if not sw.items:
+            return {"no items: nothing is generated": r == 0}
+        if _cartesian(S, a):
+            return {"the product of the lengths of all items": r == math.prod(len(v) for v in sw.items.values())}
+        return {"the product of the sizes of the zipped groups (a group has the length of its first member)":
+                r == math.prod(len(sw.items[g if isinstance(g, str) else g[0]]) for g in sw.dims)}
+    items = a.self.items
+    order = getattr(post._locals, "order_of_loop0", None)
+    out = {
+        "with an exclude function: the number of combinations that list() yields": S.implies(
+            S.not_(S.is_none(a.self.exclude)), lambda: r == S.len(S.uf("fn:Sweep.list", SO, a.self))),
+        "no items: nothing is generated": S.implies(S.and_(S.is_none(a.self.exclude), S.len(items) == 0), lambda: r == 0),
+        "the product of the sizes of the zipped groups (a group has the length of its first member)": S.implies(
+            S.and_(_counts(S, a), S.not_(_cartesian(S, a))), lambda: r == _QLEN(
+                items.t, S.some(a.self.dims).t, S.len(S.some(a.self.dims)))),
+    }
+    if order is not None:  # (the path went through the loop over the items: its enumeration of the keys is the witness)
+        out["the product of the lengths of all items (along the duplicate-free enumeration of the keys that the loop "
+            "followed)"] = S.implies(S.and_(_counts(S, a), _cartesian(S, a)), lambda: r == _PLEN(items.t, order.t, S.len(items)))
+    return out
+
+
+sweep_len = Contract(
+    f"{F}::Sweep.__len__", params={"self": SweepLenV}, returns=TInt, axioms=_len_axioms,
+    raises=[("IndexError", lambda S, a: S.and_(_counts(S, a), S.not_(_cartesian(S, a)), lambda: S.exists(
+                0, S.len(S.some(a.self.dims)), lambda i: _group_bad_index(S, a, i)))),
+            ("KeyError", lambda S, a: S.and_(_counts(S, a), S.not_(_cartesian(S, a)), lambda: S.exists(
+                0, S.len(S.some(a.self.dims)), lambda i: _group_bad_key(S, a, i))))],
+    ensures=_slen_ensures,
+    loops={0: LoopSpec(lambda S, a, v, k: {
+        "product so far": v.total_length == _PLEN(a.self.items.t, getattr(v, "order_of_loop0").t, k)}),
+           1: LoopSpec(lambda S, a, v, k: {
+               "product so far": v.total_length == _QLEN(a.self.items.t, S.some(a.self.dims).t, k),
+               "groups so far are well-formed": S.forall(0, k, lambda i: S.and_(
+                   S.not_(_group_bad_index(S, a, i)), lambda: S.not_(_group_bad_key(S, a, i))))})},
+)
+LEN = [at_least_tuple, sweep_list, sweep_len]
+
+
+def len_gen(rng, tier):
+    from pipefunc.sweep import Sweep
+    keys = ["a", "b", "c"]
+    for q in range(500 if tier == "quick" else 5000):
+        items = {k: [f"{k}{i}" for i in range(rng.randint(0, 3))] for k in keys if rng.random() < 0.7}
+        r = rng.random()
+        if r < 0.35:
+            dims = None
+        elif r < 0.55:
+            dims = list(items)
+            rng.shuffle(dims)
+        else:
+            ks = list(items) + (["zz"] if rng.random() < 0.15 else [])
+            rng.shuffle(ks)
+            dims, i = [], 0
+            while i < len(ks):
+                n = rng.randint(1, 2)
+                grp = tuple(ks[i:i + n])
+                dims.append(grp[0] if len(grp) == 1 and rng.random() < 0.5 else grp)
+                i += n
+            if rng.random() < 0.08:
+                dims.append(())
+            # zipped members must be equally long for list(); __len__ itself only looks at the first member
+        # (with an exclude function __len__ is len(list()): ill-formed groups are then list()'s business)
+        exclude = (lambda d: d.get("a") == "a0") if dims is None and rng.random() < 0.3 else None
+        yield {"self": Sweep(items, dims=dims, exclude=exclude)}
